@@ -146,6 +146,56 @@ Proof.
     destruct (fault_free_run lim ls _ d H0 Hls Hrun) as (? & ? & ? & ?). done.
 Qed.
 
+(* the limiter of golang.org/x/time/rate with a bucket of at least one token: as the loop asks for ONE token per
+   provider call whatever the batch size, Wait never fails without a cancellation, so the loop never returns and
+   every received source is queried or still being collected -- for every batch limit, also above the burst *)
+Lemma dstep_b_nofault lim burst d l d' :
+  1 <= burst -> d_cancelled d = false -> l <> DCancel -> dstep_b lim burst d l = Some d' ->
+  dstep lim d l = Some d' /\ d_fault l = false.
+Proof.
+  intros Hb Hc Hl. unfold dstep_b. destruct (limiter_ok burst d l) eqn:Ok; [|done]. intros E. split; [done|].
+  destruct d as [ph ips armed ts can rcv calls sent drop aband]; cbn in *; subst can.
+  destruct l; try done.
+  - exfalso. cbn in Ok. unfold limiter_request in Ok. apply Z.ltb_lt in Ok. lia.
+  - exfalso. by destruct ph.
+  - exfalso. by destruct ph.
+Qed.
+
+Lemma dispatcher_limiter_run lim burst ls d d' :
+  1 <= burst -> fault_free d -> DCancel ∉ ls -> run (dstep_b lim burst) d ls = Some d' ->
+  run (dstep lim) d ls = Some d' /\ Forall (λ l, d_fault l = false) ls.
+Proof.
+  intros Hb. revert d. induction ls as [|l ls IH]; intros d Hf Hn Hrun; cbn in *.
+  - by injection Hrun as <-.
+  - destruct (dstep_b lim burst d l) as [d1|] eqn:E; [|done].
+    assert (l <> DCancel) as Hl by (intros ->; apply Hn; left).
+    destruct (dstep_b_nofault lim burst d l d1 Hb (proj1 Hf) Hl E) as [E' Hfl]. rewrite E'.
+    assert (fault_free d1) as Hf1.
+    { apply (fault_free_run lim [l] d d1 Hf); [by constructor|]. cbn. by rewrite E'. }
+    destruct (IH d1 Hf1) as [Hr Hall]; [intros Hin; apply Hn; by right|done|]. split; [done|by constructor].
+Qed.
+
+Lemma dispatcher_limiter lim burst ls d :
+  1 <= burst -> DCancel ∉ ls -> run (dstep_b lim burst) (d_init lim) ls = Some d ->
+  Forall (λ l, d_fault l = false) ls /\
+  d_phase d <> DStopped /\ d_dropped d = [] /\ d_abandoned d = [] /\
+  d_received d ≡ₚ d_queried d ++ d_ips d /\
+  Forall (λ b, 1 <= Z.of_nat (length b.1.1) <= Z.max 1 lim) (d_calls d).
+Proof.
+  intros Hb Hn Hrun. assert (fault_free (d_init lim)) as H0.
+  { unfold fault_free, d_init; cbn. repeat split; try done. by destruct (lim <? 0). }
+  destruct (dispatcher_limiter_run lim burst ls _ d Hb H0 Hn Hrun) as [Hr Hall].
+  destruct (dispatcher_cancel lim ls d Hr) as (Hs & _ & _ & _ & _ & Hff).
+  destruct (Hff Hall) as (Hd & Ha & _ & Hp). split; [done|]. split; [done|]. split; [done|]. split; [done|].
+  split; [by rewrite Hs, Hd, app_nil_r|]. apply (dispatcher_batch_bound lim ls d Hr).
+Qed.
+
+(* ... while a request of more tokens than the bucket holds fails at once (here: one token, empty bucket) *)
+Example ex_limiter_too_small :
+  exists d, run (dstep_b 1 0) (d_init 1) [DRecv x_a; DLimitErr] = Some d /\ d_phase d = DStopped /\
+            d_dropped d = [x_a] /\ dstep_b 1 0 (DState DLimiter [x_a] false [] false [x_a] [] [] [] []) DLimit = None.
+Proof. eexists. by repeat split. Qed.
+
 (* shutdown boundary: sources the dispatcher had accepted are neither queried nor answered; answers of a
    provider call are never sent *)
 Lemma dispatcher_cancel_boundary :
